@@ -101,6 +101,7 @@ type C09Case struct {
 	DropResp float64  `json:"drop_resp,omitempty"` // response loss during the searches
 	Remove   int      `json:"remove,omitempty"`    // 1: the crashed node is then removed from the membership, 2: removed first, then taken out of service
 	CutP     float64  `json:"cut_p,omitempty"`     // probability that a leg's answer stream breaks off after some of its items
+	Overlap  int      `json:"overlap,omitempty"`   // searches are issued in groups of this many at the same instant (0/1: one at a time)
 }
 
 func genC09(r *simrt.Rand, tier string) json.RawMessage {
@@ -117,6 +118,18 @@ func genC09(r *simrt.Rand, tier string) json.RawMessage {
 	for i := 0; i < ns; i++ {
 		q := []float32{float32(r.Range(-40, 40)) / 4, float32(r.Range(-40, 40)) / 4}
 		c.Searches = append(c.Searches, W3Op{K: "search", Node: r.Range(1, c.W3.Nodes), Q: q, N: []int{1, 2, 3, 5, 10, 50}[r.Intn(6)]})
+	}
+	if r.Bool(0.3) {
+		// several clients at once: searches are issued in groups at the same instant (each
+		// with its own query, so that the simulator can tell their legs apart)
+		c.Overlap = r.Range(2, 4)
+		for len(c.Searches) < 2*c.Overlap {
+			q := []float32{float32(r.Range(-40, 40)) / 4, float32(r.Range(-40, 40)) / 4}
+			c.Searches = append(c.Searches, W3Op{K: "search", Node: r.Range(1, c.W3.Nodes), Q: q, N: []int{1, 2, 3, 5, 10, 50}[r.Intn(6)]})
+		}
+		for i := range c.Searches { // distinct queries
+			c.Searches[i].Q[0] += float32(i) / 64
+		}
 	}
 	if c.W3.Nodes > 1 && r.Bool(0.45) {
 		switch r.Intn(5) {
@@ -216,11 +229,66 @@ func execC09(raw json.RawMessage, wantLog bool) (out Outcome) {
 			s.cfg.Net.DropResp = c.DropResp
 			s.faultsOn = true
 		}
-		for _, op := range c.Searches {
-			if op.Node < 1 || op.Node > len(s.nodes) || !s.nodes[op.Node-1].alive {
+		type sres struct {
+			op   W3Op
+			h    *histOp
+			legs []searchLeg
+		}
+		var results []sres
+		for i := 0; i < len(c.Searches); {
+			group := 1
+			if c.Overlap > 1 {
+				group = c.Overlap
+			}
+			if group == 1 {
+				op := c.Searches[i]
+				i++
+				if op.Node < 1 || op.Node > len(s.nodes) || !s.nodes[op.Node-1].alive {
+					continue
+				}
+				h, legs := r.runRead(op)
+				results = append(results, sres{op, h, legs})
 				continue
 			}
-			h, legs := r.runRead(op)
+			// several clients at the same instant
+			s.pump()
+			legs0 := len(s.searchLegs)
+			var hs []sres
+			for j := 0; j < group && i < len(c.Searches); j, i = j+1, i+1 {
+				op := c.Searches[i]
+				if op.Node < 1 || op.Node > len(s.nodes) || !s.nodes[op.Node-1].alive {
+					continue
+				}
+				h := &histOp{op: op, idx: -1, tStart: s.now()}
+				r.hist = append(r.hist, h)
+				r.startRead(h)
+				hs = append(hs, sres{op: op, h: h})
+				if c.W3.Cfg.Seed%2 == 0 {
+					// ... or a few milliseconds apart, so that one search starts while another is
+					// already collecting its answers
+					s.runFor(time.Duration(1+(c.W3.Cfg.Seed>>uint(8+j))%6) * time.Millisecond)
+				}
+			}
+			s.runUntil(func() bool {
+				for _, x := range hs {
+					if x.h.cop != nil && !x.h.cop.done {
+						return false
+					}
+				}
+				return true
+			}, 15*time.Second)
+			s.runFor(200 * time.Millisecond)
+			for _, x := range hs {
+				if x.h.cop != nil && x.h.cop.done {
+					x.h.done, x.h.err, x.h.res = true, x.h.cop.err, x.h.cop.res
+				}
+				x.legs = append([]searchLeg(nil), s.searchLegs[legs0:]...)
+				results = append(results, x)
+			}
+			out.Stat("groups_of_overlapping_searches", 1)
+		}
+		for _, sr := range results {
+			op, h, legs := sr.op, sr.h, sr.legs
 			out.Stat("dataset_searches", 1)
 			if !h.done {
 				r.viol("search-never-returned", "Dataset.Search on n%d did not return within 15 simulated seconds", op.Node)
@@ -232,7 +300,7 @@ func execC09(raw json.RawMessage, wantLog bool) (out Outcome) {
 			legFailed := false
 			var myLegs []searchLeg
 			for _, l := range legs {
-				if l.from != s.nodes[op.Node-1].id {
+				if l.from != s.nodes[op.Node-1].id || !sameVec(l.req.GetQuery(), op.Q) {
 					continue
 				}
 				myLegs = append(myLegs, l)
@@ -367,6 +435,18 @@ func execC09(raw json.RawMessage, wantLog bool) (out Outcome) {
 	})
 	out.Nontrivial = out.Stats["dataset_searches"] > 0
 	return
+}
+
+func sameVec(a, b []float32) bool {
+	if len(a) != len(b) {
+		return false
+	}
+	for i := range a {
+		if a[i] != b[i] {
+			return false
+		}
+	}
+	return true
 }
 
 func shrinkC09(raw json.RawMessage) []json.RawMessage {
@@ -1637,8 +1717,8 @@ func init() {
 	}
 	mk("C09", "exploration",
 		"case = cluster of 1..4 servers, dataset with 1..8 partitions and 1..3 replicas, 1..14 items, 2..6 dataset searches from any node with k from 1 to beyond the total, yield probability 0..40% at the fan-out/fan-in channel operations, seeded select order; optionally a crashed node (which may also be removed from the membership, before or after it goes down, so that no address is known for a listed replica), a blocked link or 30% response loss during the searches; the simulator records every SearchPartitions leg; non-trivial = at least one search executed; distinct = hash of the event log",
-		[]string{"dataset_searches", "searches_checked_against_union", "searches_with_several_legs", "legs_checked_against_direct_search", "searches_failed_loudly", "fault_partition", "fault_crash", "fault_drop_response", "node_removed_from_membership", "fault_stream_cut"},
-		genC09, execC09, shrinkC09, 3000, 60000)
+		[]string{"dataset_searches", "searches_checked_against_union", "searches_with_several_legs", "legs_checked_against_direct_search", "searches_failed_loudly", "fault_partition", "fault_crash", "fault_drop_response", "node_removed_from_membership", "fault_stream_cut", "groups_of_overlapping_searches"},
+		genC09, execC09, shrinkC09, 1500, 60000)
 	mk("C10", "exploration",
 		"case = fault-free cluster of 1..4 servers, dataset with 1..8 partitions, 4..14 writes over 3..12 ids issued through random entry nodes (hosting or not hosting the owner) and both API paths (single, batch), optionally a restart of all nodes in the middle; every outcome must equal a sequential map, every id must live in exactly one partition; non-trivial = more than 2 outcomes compared; distinct = hash of the event log",
 		[]string{"outcomes_compared_with_sequential_map", "placements_checked", "node_restarts"},
